@@ -48,6 +48,12 @@ func run(seed int64, n int, dir string, _ []string) {
 	dml.OuterJoinCorpus(g, o, root)
 	// corpus: multi-table UPDATE / DELETE over USING (…) / NATURAL joins, join column first / middle / last, SET columns before / after it
 	dml.UsingJoinCorpus(g, o, root)
+	// corpus: multi-table UPDATE / DELETE over join TREES of depth 2-3 (chains and nested joins of every kind, id-less sources at every position)
+	treeN := 350
+	if n > 5000 {
+		treeN = 2500
+	}
+	dml.TreeJoinCorpus(g, o, root, treeN)
 	// corpus: the witness of the known finding "a column added to a fixed-length table with explicit positions is not written by COMMIT"
 	dml.FixedAddWitness(g, o, root)
 	// corpus: every kind of successful change as the first / second / third change of a table of every file format, COMMIT, read back by a fresh process
